@@ -1,6 +1,8 @@
 package props
 
 import (
+	"math"
+	"strconv"
 	"testing"
 
 	"pgregory.net/rapid"
@@ -267,7 +269,39 @@ func c12Gen(t *rapid.T) MetricCase {
 		c.Params = datagen.GenGrid(t, c.Recs, 20)
 	}
 	c.Caps = mockstore.Caps{Label: rapid.IntRange(0, 15).Draw(t, "caps-label"), Line: rapid.IntRange(0, 15).Draw(t, "caps-line")}
+	// A scalar that is exactly the value of some series at some step: the boundary of every
+	// comparison (and a zero remainder / unit quotient for the arithmetic operators).
+	if lit, vec := litAndVector(m); lit != nil && rapid.Bool().Draw(t, "scalar-hits-a-value") {
+		ev := model.NewEvaluator(sortedRecs(c.Recs))
+		var hits []float64
+		for _, at := range c.Params.Steps() {
+			if v, err := ev.At(vec, at); err == nil {
+				for _, smp := range v.Vec {
+					if smp.V == math.Trunc(smp.V) && smp.V >= 0 && smp.V < 1e9 && smp.E == 0 {
+						hits = append(hits, smp.V)
+					}
+				}
+			}
+		}
+		if len(hits) > 0 {
+			v := hits[rapid.IntRange(0, len(hits)-1).Draw(t, "hit")]
+			lit.Value, lit.ValueText = v, strconv.FormatInt(int64(v), 10)
+			c.M = *m
+			c.Text = gen.PrintMetric(m, datagen.RapidLayout{T: t})
+		}
+	}
 	return c
+}
+
+// litAndVector returns the literal and the vector operand of a vector-scalar operation.
+func litAndVector(m *gen.Metric) (lit, vec *gen.Metric) {
+	switch {
+	case m.L.Kind == "literal" && m.R.Kind != "literal":
+		return m.L, m.R
+	case m.R.Kind == "literal" && m.L.Kind != "literal":
+		return m.R, m.L
+	}
+	return nil, nil
 }
 
 func sortStringsT(s []string) {
